@@ -235,5 +235,88 @@ theorem excludeSequence_spec {K : Nat} {D : Data} {w : Nat} {s : State K} {z : N
       · exact hinv.last
       · exact hinv.seedlt
 
+/-! ### `include_sequence` -/
+
+theorem includeSequence_spec {K : Nat} {D : Data} {w : Nat} {s : State K} {z : Nat}
+    (hwf : D.WF K) (hinv : Inv D w s) (hz : z < D.n) :
+    ∃ s', includeSequence D w s z = .ok s' ∧ Inv D w s' ∧ act s' = withSeq (act s) z ∧ SameRest s s' := by
+  have hzs : z < D.seqs.size := hz
+  have hzst : z < s.starts.size := by rw [hinv.nstarts]; exact hz
+  have hzc : z < D.counts.size := by rw [hwf.ncounts]; exact hz
+  have hza : z < s.active.data.size := by rw [hinv.nactive]; exact hz
+  unfold includeSequence
+  rw [if_neg (fun h => h ⟨hzs, hzst, hzc⟩)]; dsimp only
+  rw [show s.starts.getD z 0 = st s z from rfl, test_ok s z hza]
+  cases ha : act s z with
+  | true =>
+    refine ⟨s, rfl, hinv, ?_, rfl, rfl, rfl, rfl, rfl⟩
+    funext i; unfold withSeq
+    by_cases e : i = z
+    · subst e; rw [if_pos rfl, ha]
+    · rw [if_neg e]
+  | false =>
+    dsimp only
+    have hin := hinv.inside z hz
+    have hsym := hwf.sym z hz
+    obtain ⟨m', hm1, hm2, hm3⟩ := addWindow_ok (D.seq z) (st s z) w s.motif hinv.rows hin hsym
+    rw [hm1]; dsimp only
+    obtain ⟨b1, hb1, hb2, hb3⟩ := addCounts_ok (D.cnt z) s.bg (hwf.csize z hz) hinv.bgsize
+    rw [hb1]; dsimp only
+    have hav : ∀ c, c < K → winCount (D.seq z) (st s z) w c ≤ b1.getD c 0 := by
+      intro c hc
+      rw [hb3 c hc, hwf.cnt z hz c hc, symCount_eq _ _ w c hin]
+      omega
+    obtain ⟨b2, hc1, hc2, hc3⟩ := bgSubWindow_ok (D.seq z) (st s z) w b1 hb2 hin hsym hav
+    rw [hc1]; dsimp only
+    have hset : s.active.set z = .ok ⟨s.active.data.setIfInBounds z true, s.active.count + 1⟩ := by
+      have : s.active.data.getD z false = false := ha
+      simp only [Bits.set, hza, this, if_true]
+      rfl
+    rw [hset]; dsimp only
+    have hact : ∀ (s' : State K), s'.active.data = s.active.data.setIfInBounds z true →
+        act s' = withSeq (act s) z := by
+      intro s' hs'
+      funext i
+      show s'.active.data.getD i false = _
+      rw [hs', getD_setIfInBounds]
+      unfold withSeq
+      by_cases e : i = z
+      · subst e; rw [if_pos ⟨rfl, hza⟩, if_pos rfl]
+      · rw [if_neg (fun hh => e hh.1.symm), if_neg e]; rfl
+    refine ⟨_, rfl, ?_, hact _ rfl, rfl, rfl, rfl, rfl, rfl⟩
+    have hact := hact _ (rfl : (State.mk s.starts ⟨s.active.data.setIfInBounds z true, s.active.count + 1⟩
+          s.seed m' b2 s.step s.lastInclusion s.converged).active.data = _)
+    have hwz : withSeq (act s) z z = true := by unfold withSeq; rw [if_pos rfl]
+    have hback : without (withSeq (act s) z) z = act s := without_withSeq _ _ ha
+    constructor
+    · exact hinv.nstarts
+    · show (s.active.data.setIfInBounds z true).size = D.n
+      rw [Array.size_setIfInBounds]; exact hinv.nactive
+    · exact hm2
+    · exact hc2
+    · exact hinv.inside
+    · intro j hj c hc
+      rw [hact]
+      show m'.get j c = alignMotif D (st s) (withSeq (act s) z) j c
+      rw [alignMotif_without D (st s) _ j c hz hwz, hback, hm3 j c, hinv.motif j hj c hc]
+      by_cases e : (D.seq z).getD (st s z + j) 0 = c
+      · rw [if_pos ⟨hj, e⟩, if_pos e]
+      · rw [if_neg (fun hh => e hh.2), if_neg e]
+    · intro c hc
+      rw [hact]
+      show b2.getD c 0 = alignBg D w (st s) (withSeq (act s) z) c
+      rw [alignBg_without D w (st s) _ c hz hwz, hback]
+      have h1 := hc3 c
+      have h2 := hb3 c hc
+      have h3 := hinv.bg c hc
+      have h4 := hwf.cnt z hz c hc
+      rw [symCount_eq _ (st s z) w c hin] at h4
+      omega
+    · rw [hact]
+      show s.active.count + 1 = alignCount D (withSeq (act s) z)
+      rw [alignCount_without D _ hz hwz, hback, hinv.count]
+    · exact hinv.last
+    · exact hinv.seedlt
+
 end Sampler
 end LMV
